@@ -266,6 +266,24 @@ pub fn c04(p: &Params) {
                 log(Ev::OpEnd { th: i, op: "send", arg: v, ok });
                 sp();
             }
+            // no message may be left queued without a pending wake-up: everything this thread
+            // sent successfully must be delivered while it still holds its sender (dropping the
+            // sender wakes the loop once more and would mask a lost wake-up)
+            let mine: Vec<u64> = T.with(|t| t.borrow().events.iter().filter_map(|(_, e)| if let Ev::OpEnd { th, op: "send", arg, ok: true } = e { if *th == i { Some(*arg) } else { None } } else { None }).collect());
+            let mut all = false;
+            for _ in 0..1500 {
+                all = T.with(|t| {
+                    let t = t.borrow();
+                    mine.iter().all(|v| t.events.iter().any(|(_, e)| matches!(e, Ev::Callback { src: "msg", payload } if payload == v)))
+                });
+                if all || is_stuck() {
+                    break;
+                }
+                shuttle::thread::yield_now();
+            }
+            if !all && !is_stuck() {
+                violate("channel.message_without_wakeup", &["C04", "C02"], vec![], format!("sender thread {} sent {} message(s) successfully but the loop never delivered them while the sender was alive: a message sits in the queue without a pending wake-up", i, mine.len()));
+            }
             log(Ev::OpBegin { th: i, op: "drop_sender", arg: 0 });
             drop(t);
             log(Ev::OpEnd { th: i, op: "drop_sender", arg: 0, ok: true });
@@ -648,9 +666,25 @@ pub fn c11(p: &Params) {
             for (k, op) in ops.iter().enumerate() {
                 match op {
                     0 => {
-                        log(Ev::OpBegin { th: i, op: "wakeup", arg: k as u64 });
+                        let b = log(Ev::OpBegin { th: i, op: "wakeup", arg: k as u64 });
                         s.wakeup();
                         log(Ev::OpEnd { th: i, op: "wakeup", arg: k as u64, ok: true });
+                        // the current wait - or the next one - must return because of it
+                        let mut seen = false;
+                        for _ in 0..1500 {
+                            seen = T.with(|t| {
+                                let t = t.borrow();
+                                t.events.iter().rev().take_while(|(s2, _)| *s2 > b).any(|(_, e)| matches!(e, Ev::WaitLeave { .. }))
+                                    || t.events.iter().any(|(_, e)| matches!(e, Ev::OpEnd { op: "run", .. } | Ev::OpEnd { op: "block_on", .. }))
+                            });
+                            if seen || is_stuck() {
+                                break;
+                            }
+                            shuttle::thread::yield_now();
+                        }
+                        if !seen {
+                            violate("signal.wakeup_ignored", &["C11"], vec![], format!("wakeup() begun at history position {} returned, but no wait of the loop ended afterwards", b));
+                        }
                     }
                     1 => {
                         // a stop that is not followed by a wakeup: takes effect whenever the
